@@ -19,7 +19,9 @@ import codec
 import common
 import tlcrun
 
-PLANS = {"quick": {"MaxCalls": 2, "keep": 5000, "rand": 1500}, "thorough": {"MaxCalls": 2, "keep": 60000, "rand": 40000}}
+# quick: every decoration of ONE call exhaustively (24576 layouts, sub-sampled), chains of 2-3 calls by seeded random walks of
+# the same machine and exhaustively in "line" mode; thorough: all decorations of two-call chains exhaustively (2.4M layouts)
+PLANS = {"quick": {"MaxCalls": 1, "keep": 3000, "rand": 6000}, "thorough": {"MaxCalls": 2, "keep": 60000, "rand": 40000}}
 
 PRELUDE = '''
 def keep(f):
